@@ -322,17 +322,6 @@ func (r *Run) runHistory(idx int, next func(p *Pool, step int) (Op, bool), onTai
 }
 
 func (r *Run) emitOp(o Op, line string) {
-	if o.Name == "CloneEnum" || o.Name == "CloneEval" {
-		// a composite of model operations (constructor, and for an enum one constructor + AddValue per
-		// value); the state is compared after the whole call
-		fmt.Fprintf(r.trace, "X %s\n", line)
-		for _, l := range r.cloneLines {
-			fmt.Fprintf(r.trace, "O %s\nR ok\n", l)
-			r.oLines++
-			r.rLines++
-		}
-		return
-	}
 	if modelled(o.Name) {
 		fmt.Fprintf(r.trace, "O %s\n", line)
 		r.oLines++
